@@ -127,6 +127,8 @@ func init() {
 	add(word("${v:-$w}", wPEB("v", ":-", ast.Word{wPE("w")})))
 	add(word("$(c)", wCS(true, simpleCmd("c"))))
 	add(word("$(c d)", wCS(true, simpleCmd("c", "d"))))
+	add(word("$(x)", wCS(true, simpleCmd("x"))))
+	add(word("`x`", wCS(false, simpleCmd("x"))))
 	add(word("`c`", wCS(false, simpleCmd("c"))))
 	// two-character operators inside substitutions
 	andOr := func(op string) ast.Command {
